@@ -29,6 +29,7 @@ def run(ctx):
     ctx.run("C04.TIMEOUT", "R-FLOW", par.c04_timeout)
     ctx.run("C04.TIMEOUT-UNORDERED", "R-ORDER", par.c04_timeout_unordered)
     ctx.run("C01.STOP", "R-FLOW", par.c01_stop)
+    ctx.run("C01.CALLBACK-SIBLINGS", "R-SIBLING", par.c01_callback_siblings)
     ctx.run("C04.CLEANUP", "R-ORDER", par.c04_cleanup)
     ctx.run("C04.RESET", "R-RESET", par.c04_reset)
     ctx.run("C04.CALLID", "R-LOCK/R-ORDER", par.c04_callid)
